@@ -83,13 +83,15 @@ def clauses (prop : String) (cfg : NetCfg) (seen : List Nat := []) : St → List
       [("no_panic", !o.panicked), ("every_frame_on_the_bus_reaches_the_service", !o.notReceived)] ++
       (match e with
       | .cycle =>
-        if prop == "C10" then
+        if prop == "C10" || prop == "C11" then
           -- the reference rule of the Spec, unit by unit, against what the implementation published in this cycle
           let expected := (((units cfg).zip s.units).zipIdx.filterMap fun ((u, us), i) =>
             (Spec.C10.mustPublish { heard := us.heard, silentFor := s.now - us.lastRx + 1, timeout := u.timeout,
                                      previous := us.lastStatus, cycle := s.tick }).map fun k =>
               showStatus cfg { unit := i, kind := k })
-          [("status_truthful_and_fresh", expected == o.statuses)]
+          -- (under C11 the same comparison reads: a unit counts as heard - and stays Healthy - only through frames from ITS
+          -- OWN address that ITS driver accepts; `us.heard` / `us.lastRx` are credited by exactly those)
+          [(if prop == "C10" then "status_truthful_and_fresh" else "units_credited_only_by_their_own_frames", expected == o.statuses)]
         else if prop == "C01" || prop == "C02" || prop == "C15" then
           -- every cycle re-asserts the LATEST accepted motion command to every hydraulic unit (lock if there was none)
           let setupLen := if s.isSetup then 0 else ((units cfg).flatMap setupFrames).length
